@@ -655,7 +655,7 @@ func (e *env) closer(watchdog *string) {
 				if n != last {
 					last, lastT = n, time.Now()
 				}
-				if n >= 40960 && time.Since(lastT) > 40*time.Millisecond {
+				if n >= 40960 && time.Since(lastT) > 100*time.Millisecond {
 					break
 				}
 				if time.Since(start) > 60*time.Second {
@@ -711,7 +711,6 @@ func childRun(inb []byte) (any, error) {
 			break // stuck goroutines of a failed repetition must not disturb the next one
 		}
 	}
-	stopProf()
 	return outs, nil
 }
 
